@@ -1676,6 +1676,7 @@ def run(ctx) -> Result:
             check_cases(res, [c["case"]], rng, True, c.get("parallel"))
     disc_corpus = [c["disc_case"] for c in corpus if "disc_case" in c]
     check_disc_cases(res, disc_corpus)
+    check_sessions(res, [c["session"] for c in corpus if "session" in c])
     res.count("corpus", len(corpus))
     # systematic: every ordered subset for n <= 4, every scheme, scalar/vector step, with/without design space
     reps = 3 if ctx.thorough else 1
@@ -1769,6 +1770,16 @@ def replay(path: str) -> int:
         bad = disc_oracle(c, obs)
         for k, m in bad:
             print("ORACLE FAILS:", k, m)
+        return 1 if bad else 0
+    if "session" in rp:
+        sess = rp["session"]
+        res = Result(PID)
+        check_sessions(res, [sess])
+        for ln in session_lines(sess):
+            print("line:", ln)
+        bad = [v for v in res.violations if v.kind == "oracle"]
+        for v in res.violations:
+            print(("ORACLE FAILS:" if v.kind == "oracle" else "MODEL DIFFERS:"), v.key, v.what)
         return 1 if bad else 0
     print(json.dumps(rp, indent=1))
     return 1
